@@ -994,23 +994,105 @@ func c11RoundE(c *Ctx, w *World) {
 				}
 			}
 		}
-		var succ []*ssa.Return
-		for _, b := range vs.Blocks {
-			if ret, isRet := b.Instrs[len(b.Instrs)-1].(*ssa.Return); isRet && len(ret.Results) > 0 {
-				if cv, isC := ret.Results[len(ret.Results)-1].(*ssa.Const); isC && cv.IsNil() {
-					succ = append(succ, ret)
+		// accepts(fn, f): every return of fn that may hand nil to its caller has passed a comparison of header.f —
+		// made in fn itself or in a helper (same package) whose own accepting returns all passed one
+		var accepts func(fn *ssa.Function, f string, depth int) (bool, string)
+		cmpIn := func(fn *ssa.Function, f string) []ssa.Instruction {
+			var out []ssa.Instruction
+			for _, in := range allInstrs(fn) {
+				bo, ok := in.(*ssa.BinOp)
+				if !ok || (bo.Op != token.NEQ && bo.Op != token.EQL) {
+					continue
+				}
+				if mentions(bo.X, f) || mentions(bo.Y, f) {
+					out = append(out, bo)
 				}
 			}
+			return out
 		}
+		accepts = func(fn *ssa.Function, f string, depth int) (bool, string) {
+			gates := cmpIn(fn, f)
+			if depth < 2 {
+				for _, ci := range callInstrs(fn) {
+					if g := ci.Common().StaticCallee(); g != nil && g.Pkg == fn.Pkg && g.Blocks != nil && g != fn {
+						if sig := g.Signature.Results(); sig.Len() > 0 && sig.At(sig.Len()-1).Type().String() == "error" {
+							if ok, _ := accepts(g, f, depth+1); ok && len(cmpInDeep(g, f, cmpIn)) > 0 {
+								gates = append(gates, ci.(ssa.Instruction))
+							}
+						}
+					}
+				}
+			}
+			n := 0
+			for _, b := range fn.Blocks {
+				ret, isRet := b.Instrs[len(b.Instrs)-1].(*ssa.Return)
+				if !isRet || len(ret.Results) == 0 {
+					continue
+				}
+				rv := stripConvNoBind(ret.Results[len(ret.Results)-1])
+				switch x := rv.(type) {
+				case *ssa.Const:
+					if !x.IsNil() {
+						continue
+					}
+				case *ssa.MakeInterface:
+					continue
+				case *ssa.Call:
+					if o := calleeObj(x); o != nil && (o.Name() == "Errorf" || o.Name() == "New") {
+						continue
+					}
+				}
+				n++
+				if !mustPassBefore(ret, gates) {
+					return false, w.Pos(ret.Pos())
+				}
+			}
+			return n > 0, ""
+		}
+		_ = cmpOf
 		for _, f := range fields {
 			c.sites++
-			ok := len(cmpOf[f]) > 0 && len(succ) > 0
-			for _, r := range succ {
-				if !mustPassBefore(r, cmpOf[f]) {
+			ok, where := accepts(vs, f, 0)
+			c.Check(fname(vs)+"#accepts-only-after-comparing-"+f, vs.Pos(), ok, ifelse(ok, "every accepting return has passed the comparison", "ValidateState can accept a block on a path ("+where+") that skipped the comparison of header."+f+": a block whose only fault is that commitment becomes canonical"))
+		}
+	}
+
+	c.Rule("C11.H11", "ORDER", "a kill inside a block write leaves nothing half-known: BlockChain.HasBlock decides \"this block is known\" by one part of the block (rawdb.HasBody), and a known block is not written again on re-import — so rawdb.WriteBlock writes that part LAST (the write of the marker part is dominated by the write of the other part). Body first, header second, a kill in between: the body marks the block as known, its header never arrives, and the next side-chain import that walks over it dereferences the missing header (nil pointer panic in insertSidechain, on every restart)")
+	c.Min(1)
+	{
+		hb := w.Fn("core", "BlockChain", "HasBlock")
+		wb := w.Fn("core/rawdb", "", "WriteBlock")
+		c.sawFunc(fname(hb))
+		c.sawFunc(fname(wb))
+		marker := ""
+		for _, ci := range callInstrs(hb) {
+			if o := calleeObj(ci); o != nil && (o.Name() == "HasBody" || o.Name() == "HasHeader") {
+				marker = strings.TrimPrefix(o.Name(), "Has")
+			}
+		}
+		var wm, wo []ssa.Instruction
+		for _, ci := range callInstrs(wb) {
+			o := calleeObj(ci)
+			if o == nil || !(o.Name() == "WriteBody" || o.Name() == "WriteHeader") {
+				continue
+			}
+			if o.Name() == "Write"+marker {
+				wm = append(wm, ci.(ssa.Instruction))
+			} else {
+				wo = append(wo, ci.(ssa.Instruction))
+			}
+		}
+		c.sites++
+		if marker == "" || len(wm) == 0 || len(wo) == 0 {
+			c.Undecided(fname(wb)+"#marker-part-written-last", wb.Pos(), "HasBlock's marker (HasBody / HasHeader) or the two part writes of WriteBlock were not found")
+		} else {
+			ok := true
+			for _, m := range wm {
+				if !mustPassBefore(m, wo) {
 					ok = false
 				}
 			}
-			c.Check(fname(vs)+"#accepts-only-after-comparing-"+f, vs.Pos(), ok, ifelse(ok, "every accepting return has passed the comparison", ifelse(len(cmpOf[f]) == 0, "header."+f+" is not compared at all", "ValidateState can accept a block on a path that skipped the comparison of header."+f+": a block whose only fault is that commitment becomes canonical")))
+			c.Check(fname(wb)+"#marker-part-written-last", wm[0].Pos(), ok, ifelse(ok, "the "+strings.ToLower(marker)+" — the part HasBlock looks for — is written after the other part", "WriteBlock writes the "+strings.ToLower(marker)+" — the part by which HasBlock recognises a known block — before the other part: a kill between the two writes leaves a block that is known and never completed"))
 		}
 	}
 
@@ -1055,4 +1137,15 @@ func c11RoundE(c *Ctx, w *World) {
 			c.Check(fname(sh)+"#head-header-with-head-block", blkStores[0].Pos(), ok, ifelse(ok, "the head header is stored on every path that stores the head block", "the head block can be replaced without the head header being replaced with it: CurrentHeader() and CurrentBlock() name different blocks"))
 		}
 	}
+}
+
+// cmpInDeep: the comparisons of header.f in fn or in the same-package helpers it calls (one level).
+func cmpInDeep(fn *ssa.Function, f string, cmpIn func(*ssa.Function, string) []ssa.Instruction) []ssa.Instruction {
+	out := cmpIn(fn, f)
+	for _, ci := range callInstrs(fn) {
+		if g := ci.Common().StaticCallee(); g != nil && g.Pkg == fn.Pkg && g.Blocks != nil && g != fn {
+			out = append(out, cmpIn(g, f)...)
+		}
+	}
+	return out
 }
